@@ -251,7 +251,38 @@ class _GuardClause(ast.NodeTransformer):
     visit_While = visit_For
 
 
-REWRITES = {'swap-compare': _SwapCompare, 'invert-if': _InvertIf, 'split-and': _SplitAnd, 'noop-logging': _NoOp,
+class _ExtractTest(ast.NodeTransformer):
+    """if <test with a call>: …   ->   t_ = <test>; if t_: …      (plain ifs, not elif branches)"""
+    def __init__(self):
+        self.k = 0
+
+    def _block(self, blk):
+        out = []
+        for st in blk:
+            st = self.visit(st)
+            if isinstance(st, ast.If) and any(isinstance(x, ast.Call) for x in ast.walk(st.test)) \
+                    and not any(isinstance(x, (ast.NamedExpr, ast.Yield, ast.YieldFrom, ast.Await)) for x in ast.walk(st.test)):
+                self.k += 1
+                name = f'cond{self.k}_'
+                out.append(ast.Assign(targets=[ast.Name(id=name, ctx=ast.Store())], value=st.test, lineno=st.lineno))
+                st.test = ast.Name(id=name, ctx=ast.Load())
+            out.append(st)
+        return out
+
+    def generic_visit(self, node):
+        for fld in ('body', 'orelse', 'finalbody'):
+            blk = getattr(node, fld, None)
+            if isinstance(blk, list) and blk and isinstance(blk[0], ast.stmt):
+                if fld == 'orelse' and isinstance(node, ast.If) and len(blk) == 1 and isinstance(blk[0], ast.If):
+                    blk[0] = self.generic_visit(blk[0])      # elif chain: left as it is
+                    continue
+                setattr(node, fld, self._block(blk))
+        for h in getattr(node, 'handlers', []) or []:
+            h.body = self._block(h.body)
+        return node
+
+
+REWRITES = {'extract-test': _ExtractTest, 'swap-compare': _SwapCompare, 'invert-if': _InvertIf, 'split-and': _SplitAnd, 'noop-logging': _NoOp,
             'annotate-assign': _Annotate, 'cast-value': _Cast, 'insert-assert': _Assert, 'guard-clause': _GuardClause}
 
 
@@ -261,7 +292,10 @@ def rewrite(src: str, fnode, kind: str) -> str:
     body = new.body
     doc = body[:1] if body and isinstance(body[0], ast.Expr) and isinstance(body[0].value, ast.Constant) else []
     tr = REWRITES[kind]()
-    new.body = doc + [tr.visit(st) for st in body[len(doc):]]
+    if kind == 'extract-test':
+        new.body = doc + tr._block(body[len(doc):])
+    else:
+        new.body = doc + [tr.visit(st) for st in body[len(doc):]]
     if kind == 'noop-logging':
         new.body = doc + [ast.parse("logger.debug('trace')").body[0]] + new.body[len(doc):]
     ast.fix_missing_locations(new)
